@@ -445,3 +445,83 @@ def c14_f(ctx):
                   "name + '.pkl' under prefix, opened 'wb' / 'rb'",
                   'save and load build different paths: {} vs {}'.format(
                       show(ps)[:80], show(pl)[:80]), fn=sv, node=d[0])
+
+
+@obligation('C14-g', 'T5 T8', 'positional parents are numbered densely in declaration order',
+            floor=4, necessary='a default index that counts named parents too leaves a gap; '
+                               'parents listed in another order swap the operation\'s inputs')
+def c14_g(ctx):
+    gm = ctx.cls(GM)
+    ae = ctx.own_method(gm, 'add_edge')
+    ex = ctx.ex(ae)
+    dflt = [n for n in own_nodes(ae.node) if isinstance(n, ast.Assign) and
+            isinstance(n.targets[0], ast.Name) and n.targets[0].id == ae.params[3]]
+    ok = len(dflt) == 1 and match(ex.term(dflt[0].value),
+                                  pattern('len(self.get_parents(child_name))')) is not None and \
+        any(pol and match(t, pattern('param_name is None')) is not None
+            for (t, pol, _) in ctx.guards(ae, dflt[0]))
+    ctx.check(ok, ae, 'default index = number of positional parents so far',
+              'param_name = len(get_parents(child)) when None',
+              'the default positional index is not the number of positional parents the child '
+              'already has', fn=ae, node=dflt[0] if dflt else ae.node)
+    adds = ctx.calls(ae, 'self.source_net.add_edge(*_)')
+    ok = bool(adds) and all(
+        [ex.term(a) for a in c.args] == [('param', ae.params[1]), ('param', ae.params[2])] and
+        'param' in [k.arg for k in c.keywords] for c in adds)
+    ctx.check(ok, ae, 'edge direction parent -> child with its parameter',
+              'add_edge(parent, child, param=param_name)',
+              'the edge is not added from parent to child carrying its parameter', fn=ae,
+              node=adds[0] if adds else ae.node)
+    r = [s for s in ctx.stmts(ae, ast.Raise)]
+    ok = sum(1 for s in r if any(pol and contains(t, 'self.has_node(_)')
+                                 for (t, pol, _) in ctx.guards(ae, s))) >= 2
+    ctx.check(ok, ae, 'both end points must exist', 'raises for an unknown parent or child',
+              'an edge to / from a node that does not exist is accepted', fn=ae, node=ae.node)
+    gp = ctx.own_method(gm, 'get_parents')
+    exg = ctx.ex(gp)
+    rr = returns(gp)
+    ok = False
+    if rr:
+        t = exg.term(rr[-1].value)
+        ok = t[0] == 'comp' and match(t[3][0][0], pattern('sorted(_a, key=itemgetter(0))')) \
+            is not None and ((t[2][0] == 'sub' and t[2][2] == ('const', 1)) or
+                             (t[2][0] == 'item' and t[2][2] == 1))
+    ctx.check(ok, gp, 'positional parents sorted by their index',
+              '[a[1] for a in sorted(args, key=itemgetter(0))]',
+              'get_parents does not return the positional parents ordered by their index',
+              fn=gp, node=rr[-1] if rr else gp.node)
+    apps = ctx.calls(gp, name='append')
+    ok = bool(apps) and all(any(pol and match(t, pattern("isinstance(_p, int)")) is not None
+                                for (t, pol, _) in ctx.guards(gp, c)) for c in apps)
+    ctx.check(ok, gp, 'only integer-indexed parents are positional', 'isinstance(param, int)',
+              'named parents are listed among the positional ones', fn=gp,
+              node=apps[0] if apps else gp.node)
+    an = ctx.own_method(gm, 'add_node')
+    ok = any(any(pol and match(t, pattern('self.has_node(name)')) is not None
+                 for (t, pol, _) in ctx.guards(an, s)) for s in ctx.stmts(an, ast.Raise))
+    ctx.check(ok, an, 'duplicate names refused', 'raises when the node exists',
+              'adding a node under an existing name is accepted', fn=an, node=an.node)
+    # non-node parents become private constants named after the child
+    nr = ctx.cls(NR)
+    ap = nr.lookup('_add_parents')
+    if ap is not None:
+        ctx.touch(ap)
+        exa = ctx.ex(ap)
+        cs = ctx.calls(ap, 'Constant(*_)')
+        ok = bool(cs) and all(
+            any(pol is False and match(t, pattern('isinstance(_p, NodeReference)')) is not None
+                for (t, pol, _) in ctx.guards(ap, c)) and
+            contains(exa.term([k.value for k in c.keywords if k.arg == 'name'][0]),
+                     "'_' + self.name") for c in cs if any(k.arg == 'name' for k in c.keywords))
+        ctx.check(ok, ap, 'plain values become private constants',
+                  "Constant(value, name='_<child>_xxxx') for non-node parents",
+                  'plain parent values are not wrapped into private constants named after the '
+                  'child (remove_node could not clean them up)', fn=ap,
+                  node=cs[0] if cs else ap.node)
+        ed = ctx.calls(ap, 'self.model.add_edge(*_)')
+        ok = bool(ed) and all(len(c.args) == 2 and
+                              exa.term(c.args[1]) == pattern_term('self.name') for c in ed) and \
+            all(isinstance(enclosing_loop(c), ast.For) for c in ed)
+        ctx.check(ok, ap, 'parents attached in the order given', 'for parent in parents: add_edge',
+                  'the parents are not attached one by one in the order given', fn=ap,
+                  node=ed[0] if ed else ap.node)
